@@ -5079,7 +5079,10 @@ class TransformLinear(Array):
             index = Take(constant(self.source._indices), self.index)
             return TransformLinear(self.target, self.source._parent, index)
         if self.source._linear_is_constant and (self.target is None or self.target._linear_is_constant):
-            return constant(self._transform_linear(self.source[0], self.source.fromdims))
+            chain = self.source[0]
+            if self.target is not None:
+                chain = self.target.index_with_tail(chain)[1]
+            return constant(self._transform_linear(chain, self.source.fromdims))
 
 
 class TransformBasis(Array):
